@@ -70,7 +70,12 @@ class ArcRef(object):
     def kappa_tol(self, base=1e-9):
         if self.kind != "arc":
             return base
-        return base + 1e-15 / math.sqrt(max(abs(1.0 - min(self.lam, 1.0)), 1e-16)) * 2.0
+        # (a) half-turn square root; (b) aspect ratio: the point-form keeps centre + radius*axis as points, so the
+        # small radius is recovered from coordinates of the size of the large one: relative error eps*hi/lo per
+        # operation (4e-13 allows ~1000 ulp); negligible for aspect ratios <= 1e3.
+        hi, lo = max(self.rx, self.ry), min(self.rx, self.ry)
+        return (base + 1e-15 / math.sqrt(max(abs(1.0 - min(self.lam, 1.0)), 1e-16)) * 2.0
+                + 4e-13 * hi / lo)
 
     def point(self, theta):
         x = self.rx * math.cos(theta)
